@@ -436,7 +436,7 @@ def plan(tier, master):
         for lo in range(0, 900, 15):
             runs.append({'kind': 'sweep', 'seed': kernel.run_seed(PROP, master, f'sweep-{p}'),
                          'dir': d, 'occ': o, 'lo': lo, 'hi': lo + 15, 'dense': p % 2 == 0})
-    n_jobsets = 120 if tier == 'quick' else 3000     # x SCHEDULES_PER_JOBSET simulated runs
+    n_jobsets = 64 if tier == 'quick' else 3000     # x SCHEDULES_PER_JOBSET simulated runs
     per = 2
     for i in range(0, n_jobsets, per):
         runs.append({'kind': 'line', 'seeds': [kernel.run_seed(PROP, master, i + j)
